@@ -114,3 +114,76 @@ Fixpoint select_docs {A} (idx : list nat) (i : nat) (docs : list A) : list A :=
     | x :: idx' => if Nat.eqb x (S i) then d :: select_docs idx' (S i) ds else select_docs idx (S i) ds
     end
   end.
+
+(* ---- command-line index arguments: parse_range(arg) ----
+   std::stringstream >> size_t as libstdc++ implements it: leading white space skipped, optional
+   sign ('-' negates modulo 2^64), decimal digits, overflow fails.  Then: end of string -> N;
+   '-' and a second number followed by end of string -> M-N; anything else -> not an index (the
+   argument is taken as a file name).  Index 0 and M > N are usage errors (exit 1).
+   Ranges longer than 2^16 are not expanded by the model (ArgHuge; the tool allocates them). *)
+Inductive arg_res := ArgIndices (l : list nat) | ArgFile | ArgUsage | ArgHuge.
+
+Definition is_ws (c : Z) : bool := (c =? 32) || ((9 <=? c) && (c <=? 13)).
+Definition is_digit (c : Z) : bool := (48 <=? c) && (c <=? 57).
+Definition two64 : Z := 18446744073709551616.
+
+Fixpoint skip_ws (cs : list Z) : list Z :=
+  match cs with c :: r => if is_ws c then skip_ws r else cs | [] => [] end.
+
+(* digits -> (value or overflow, rest); None = no digit at all *)
+Fixpoint read_digits (cs : list Z) (acc : Z) (seen ovf : bool) : option (option Z * list Z) :=
+  match cs with
+  | c :: r =>
+    if is_digit c then
+      let acc' := acc * 10 + (c - 48) in
+      read_digits r (if acc' <? two64 then acc' else 0) true (ovf || negb (acc' <? two64))
+    else if seen then Some (if ovf then None else Some acc, cs) else None
+  | [] => if seen then Some (if ovf then None else Some acc, []) else None
+  end.
+
+(* operator>>(size_t&): Some (Some v, rest) ok; Some (None, rest) overflow (failbit); None = no number *)
+Definition read_size_t (cs : list Z) : option (option Z * list Z) :=
+  let cs1 := skip_ws cs in
+  match cs1 with
+  | 43 :: r => read_digits r 0 false false
+  | 45 :: r =>
+    match read_digits r 0 false false with
+    | Some (Some v, rest) => Some (Some ((two64 - v) mod two64), rest)
+    | x => x
+    end
+  | _ => read_digits cs1 0 false false
+  end.
+
+Definition parse_range (arg : list Z) : arg_res :=
+  match read_size_t arg with
+  | Some (Some start, rest) =>
+    if docenc_rejects_index_zero && (start =? 0) then ArgUsage else
+    match rest with
+    | [] => if start <? 65536 then ArgIndices [Z.to_nat start] else ArgHuge
+    | 45 :: rest2 =>
+      match read_size_t rest2 with
+      | Some (Some e, rest3) =>
+        (* the start > end test comes before the end-of-string test *)
+        if e <? start then ArgUsage
+        else match rest3 with
+             | [] => if (e - start <? 65536) && (e <? 1048576)
+                     then ArgIndices (seq (Z.to_nat start) (Z.to_nat (e - start + 1))) else ArgHuge
+             | _ => ArgFile
+             end
+      | _ => ArgFile
+      end
+    | _ => ArgFile
+    end
+  | _ => ArgFile
+  end.
+
+(* all index arguments of one command line (file arguments are not modelled: stdin only) *)
+Fixpoint parse_args (args : list (list Z)) : option (list nat) :=
+  match args with
+  | [] => Some []
+  | a :: r =>
+    match parse_range a, parse_args r with
+    | ArgIndices l, Some l' => Some (l ++ l')
+    | _, _ => None
+    end
+  end.
